@@ -291,6 +291,7 @@ def roundtrip(case, fixes=(), rounds=None, want_obs=False, propagate_pair=None):
                             for s in net.successors(n):
                                 if not isinstance(s, E.Transceiver):
                                     ob['targets'][(n.uid, s.uid)] = float(n.get_per_degree_ref_power(degree=s.uid))
+                cur = network_to_json(net)      # export first: propagation may clamp effective_gain (finding F6)
                 if propagate_pair:
                     from gnpy.topology.request import compute_constrained_path, propagate
                     path = compute_constrained_path(net, req)
@@ -299,7 +300,6 @@ def roundtrip(case, fixes=(), rounds=None, want_obs=False, propagate_pair=None):
                         res['snr'].append([float(x) for x in path[-1].snr_01nm])
                     else:
                         res['snr'].append(None)
-                cur = network_to_json(net)
             except Exception as e:      # every exception is an observation
                 res['exc'] = f'round {k}: {type(e).__name__}: {e}'
                 res['exc_type'] = type(e).__name__
@@ -401,6 +401,8 @@ def line_amp_term(case, ob, ln, cfg):
     s = (f'sc {"true" if sp["power_mode"] else "false"} {qlit(dpr[0])} {qlit(dpr[1])} {qlit(dpr[2])} {qlit(0.3)} {qlit(20.0)} '
          f'{qlit(sp.get("voa_margin", 1))} {qlit(sp.get("voa_step", 0.5))} {qlit(2.5)}')
     after = next(a for a in ob['after'] if a['src'] == ln['src'] and a['dst'] == ln['dst'] and same_line(ln, a))
+    if pad_tie(case, ln, after):
+        return 'tie', None
     amps = [e for e in after['els'] if e['k'] == 'A']
     eq = build_equipment(sp, case.get('si'), case.get('auto_voa', False))
     lib = []
@@ -469,9 +471,45 @@ def cmp_amps(model, impl, tol=1e-7):
     return None
 
 
-def near_rounding_tie(amps):
-    """an amplifier whose delta_p target or VOA sits within 1e-9 of a rounding tie is not judged"""
+def pad_tie(case, ln_before, ln_after):
+    """tie rule: a span whose loss BEFORE padding lies within 1e-9 of Span.padding without being equal (typically a
+    span padded by the previous round) is decided by float rounding; the line is not judged then"""
+    pad = case['span']['padding']
+    att0 = {}
+    for e in ln_before['els']:
+        if e['k'] in 'FR':
+            att0[e['uid']] = e['att_in']
+    run = []
+    runs = []
+    for e in ln_after['els']:
+        if e['k'] == 'A':
+            if run:
+                runs.append(run)
+            run = []
+        else:
+            run.append(e)
+    if run:
+        runs.append(run)
+    for r in runs:
+        loss = Fraction(0)
+        for e in r:
+            if e['k'] == 'U':
+                loss += Fraction(e['loss'])
+            else:
+                base = e['uid'] if e['uid'] in att0 else (c08.split_base(e['uid']) or (None,))[0]
+                loss += Fraction(e['len']) * Fraction(e['lc']) + Fraction(e['con_in'] or 0) + Fraction(e['con_out'] or 0) \
+                    + Fraction(att0.get(base, 0.0)) + sum(Fraction(l) for _, l in e['lumped'])
+        if loss != Fraction(pad) and abs(loss - Fraction(pad)) < Fraction(1, 10 ** 9):
+            return True
     return False
+
+
+def rounding_tie(x, n):
+    """x * 10^n within 1e-4 of a half-integer: the exported rounding is decided by float noise"""
+    if x is None:
+        return False
+    y = abs(float(x)) * 10 ** n
+    return abs((y % 1.0) - 0.5) < 1e-4
 
 
 def sim_kw(d):
@@ -594,12 +632,15 @@ def run(ctx):
                         ('voa_margin', ctx.scale(4, 60)), ('raman', ctx.scale(3, 40))):
             cases += [gen_case(rng, kind) for _ in range(n)]
     terms, meta = [], []
+    import time
+    t0 = t_prev = time.time()
     for case in cases:
         sc = strip(case)
+        tc = time.time()
+        if os.environ.get('VERIF_DEBUG') and meta:
+            print('case', case.get('kind'), case.get('_corpus'), 'prev took', round(tc - t_prev, 1), flush=True)
+        t_prev = tc
         ctx.count('kind_' + case.get('kind', 'valid'))
-        if case.get('kind') == 'multiband_example':
-            run_multiband(ctx, case)
-            continue
         # ---- SimParams in force
         set_simparams(case.get('simparams'))
         v_before = simparams_vars()
@@ -672,12 +713,19 @@ def run(ctx):
                     term, amps = line_amp_term(case, ob, ln, cfgk)
                 except StopIteration:
                     continue
+                if term == 'tie':
+                    ctx.count('skipped_padding_tie_lines')
+                    continue
                 if term is None:
                     continue
                 exported = {e['uid']: e for e in res['json'][k]['elements'] if e['type'] == 'Edfa'}
                 terms.append(term)
                 meta.append((sc, k, ln, [amp_s(a) for a in amps], exported))
+    ctx.extra['t_drive'] = round(time.time() - t0, 1)
+    t0 = time.time()
     out = common.coq_eval(PROP, 'Prelude Model.Chain Model.Redesign Run.C08 Run.C17', terms, per_file=20, tag='amps', prelude=QPRE)
+    ctx.extra['t_model'] = round(time.time() - t0, 1)
+    t0 = time.time()
     for (sc, k, ln, amps, exported), line in zip(meta, out):
         dm, em = parse_amps(line)
         if isinstance(dm, tuple):
@@ -694,10 +742,21 @@ def run(ctx):
             j = exported.get(a[0])
             o = j['operational']
             ex_impl.append((a[0], j['type_variety'], o['gain_target'], o['delta_p'], o['tilt_target'], o['out_voa'], o['in_voa']))
+        ties = {a[0] for a in amps if rounding_tie(a[2], 6) or rounding_tie(a[4], 5)}
+        if ties:
+            ctx.count('skipped_rounding_tie_amps', len(ties))
+            keep = [i for i, a in enumerate(amps) if a[0] not in ties]
+            em = [em[i] for i in keep]
+            ex_impl = [ex_impl[i] for i in keep]
         diff = cmp_amps(em, ex_impl, tol=1e-12)
         if diff:
             ctx.corr_break('corr:Redesign.export_amp', f'round {k + 1} line {ln["src"]}->{ln["dst"]}: {diff}', sc,
                            impl=[list(a) for a in ex_impl], model=line[:400])
+    # ---- multiband example (node-level design bands, Multiband_amplifier.to_json); Raman flag on in the thorough tier
+    if not ctx.replay:
+        run_multiband(ctx, False)
+        if ctx.thorough or os.environ.get('VERIF_C17_MB_RAMAN'):
+            run_multiband(ctx, True)
     # ---- SimParams walk: model vs implementation
     sims = [None] + [gen_simparams(rng) for _ in range(ctx.scale(5, 40))]
     sterms, smeta = [], []
@@ -712,10 +771,21 @@ def run(ctx):
         smeta.append((sp, '#'.join(sim_render(*x) for x in (start, during, after))))
     sout = common.coq_eval(PROP, 'Prelude Model.Chain Model.Redesign Run.C08 Run.C17', sterms, per_file=50, tag='sim',
                            prelude=QPRE + '\nOpen Scope string_scope.')
+    def sim_canon(t):
+        out = []
+        for part in t.replace('#', ';').split(';'):
+            for kv in part.split(','):
+                k, _, v = kv.partition('=')
+                if '/' in v and not v.startswith('['):
+                    a, b = v.split('/')
+                    v = repr(round(int(a) / int(b), 12))
+                out.append((k, v))
+        return out
     for (sp, impl), model in zip(smeta, sout):
-        if impl != model:
+        if sim_canon(impl) != sim_canon(model):
             ctx.corr_break('corr:Redesign.estimate_raman_gain_params', 'SimParams start#during#after differ', {'simparams': sp},
                            impl=impl, model=model)
+    ctx.extra['t_simparams'] = round(time.time() - t0, 1)
     ctx.assumptions += [
         'span contexts (loss of the previous / next span) are computed by the model from the observed chain; the ROADM '
         'egress target, the selected amplifier variety (C10) and the estimated Raman gain are taken from the implementation',
@@ -725,5 +795,45 @@ def run(ctx):
     return common.finish(ctx, MATCHERS)
 
 
-def run_multiband(ctx, case):
-    pass
+def multiband_roundtrip(fixes, raman):
+    """the shipped multiband example (C+L amplifiers, design bands at node level), designed / exported / redesigned"""
+    from pathlib import Path
+    from gnpy.tools.json_io import network_from_json, network_to_json, load_json, load_equipments_and_configs
+    from gnpy.tools.worker_utils import designed_network
+    from gnpy.core.parameters import SimParams
+    d = Path(c08.example_dir())
+    if 'mb' not in _EQ:
+        _EQ['mb'] = load_equipments_and_configs(d / 'eqpt_config_multiband.json', [], [])
+    eq = _EQ['mb']
+    tj = load_json(d / 'multiband_example_network.json')
+    SimParams.set_params(load_json(d / 'sim_params.json') if raman else {})
+    before = simparams_vars()
+    try:
+        with contextlib.ExitStack() as st:
+            for f in fixes:
+                st.enter_context(FIX_CTX[f]())
+            net = network_from_json(copy.deepcopy(tj), eq)
+            designed_network(eq, net)
+            j1 = network_to_json(net)
+            net2 = network_from_json(copy.deepcopy(j1), eq)
+            designed_network(eq, net2)
+            j2 = network_to_json(net2)
+        after = simparams_vars()
+    finally:
+        SimParams.set_params({})
+    return compare_exports(j1, j2), before == after
+
+
+def run_multiband(ctx, raman):
+    case = {'kind': 'multiband_example', 'topology': 'gnpy/example-data/multiband_example_network.json',
+            'equipment': 'eqpt_config_multiband.json', 'sim_params': 'sim_params.json' if raman else None}
+    d, same = multiband_roundtrip((), raman)
+    ctx.count('multiband_example_raman' if raman else 'multiband_example')
+    ctx.case(case, True)
+    if not same:
+        ctx.violation('simparams_changed', 'SimParams differ after designing the multiband example', case)
+    if d:
+        d2, _ = multiband_roundtrip(('F8',), raman)
+        u, p, x, y = d[0]
+        desc = f'multiband example: {len(d)} differences between export and re-export, first {u}{p}: {x} -> {y}'
+        ctx.violation('redesign_drift', desc, case, detail={'cause': 'F8' if not d2 else None, 'vanishes_with_fix': not d2})
